@@ -12,7 +12,8 @@ BASELINE_CMD = "cd /repo && /venv/bin/python -m pytest -ra -q -p no:cacheprovide
 ENGINES = [
     dict(name="bufsim", path="sim/bufsim.py", serves_properties=["C04", "C12", "C13"], kind_free_text="deterministic simulation of buffer/allocator histories with injected storage-allocation failures, step-by-step refinement against an executable first-fit specification and a whole-buffer shadow"),
     dict(name="objsim", path="sim/objsim.py", serves_properties=["C01", "C03", "C05", "C06", "C08", "C09", "C10", "C11", "C20"], kind_free_text="deterministic simulation of object-graph histories in relocating / fragmented / dirty storage against a Python reference model and an independent layout decoder"),
-    dict(name="capisim", path="sim/capisim.py", serves_properties=["C02", "C07", "C14", "C17"], kind_free_text="object-graph simulation with compiled C accessor clients as additional readers/writers of the shared storage"),
+    dict(name="depsim", path="sim/depsim.py", serves_properties=["C14"], kind_free_text="deterministic simulation of kernel-build histories over generated class dependency graphs with the class-set iteration order owned by the seeded scheduler"),
+    dict(name="capisim", path="sim/capisim.py", serves_properties=["C02", "C07", "C17"], kind_free_text="object-graph simulation with compiled C accessor clients as additional readers/writers of the shared storage"),
     dict(name="hybridsim", path="sim/hybridsim.py", serves_properties=["C18", "C19"], kind_free_text="deterministic simulation of hybrid-class histories (set/copy/move/dict/pickle) against a value+ownership model"),
     dict(name="devsim", path="sim/devsim.py", serves_properties=["C15", "C16"], kind_free_text="simulated OpenCL/CUDA devices: fake runtimes, host-compiled sanitized device process, seeded work-item schedules"),
 ]
@@ -34,6 +35,9 @@ CHECKS = {
     "C02": ("capisim", "deterministic simulation: compiled C accessors run as a third reader of the shared storage inside seeded object histories (relocation, fragmentation, dirty reuse); values vs model, addresses vs independent decoder", "Per world the real add_kernels path compiles the accessor API of every generated type; c_read sweeps objects and nested parts (through fields, indices and references, all in-range index tuples) with _get/_getp/_len/_typeid/_member at arbitrary offsets of relocated buffers; every value is compared with the model and every address with the layout map of the independent decoder; a final sweep covers every live object. Weak fit: the type dimension is seeded generation; the symbolic all-indices reading is not claimed.", "Trusted: sim/layout.py for addresses, sim/model.py for values; cffi for the call itself.", "DESIGN.md §3.3, §4 C02"),
     "C07": ("capisim", "deterministic simulation: C setters interleaved with Python writes and relocation; byte diff restricted to the addressed leaf, whole world re-read against a model changed at one leaf; sanitizer run of the emitted source on exact-size images", "c_set writes type-extreme values through <T>_set... on every scalar-leaf path (top objects and nested views, through references); after each call every byte outside the leaf's decoded extent must be unchanged and every object (handle, rebuilt view, decoder) must equal the model changed at exactly that leaf.", "Trusted: decoder extents, model. Second sentence (sanitizers) is decided by the devsim accessor mode when built; until then only the first sentence is claimed.", "DESIGN.md §3.3, §4 C07"),
     "C17": ("capisim", "deterministic simulation: probe kernels with seeded signatures called inside object histories (growth, relocation, nested objects, array slices); what C received is compared byte-for-byte with what Python holds now; malformed calls must be refused", "Per world 4-9 probe kernels over {10 scalar types by value, const/non-const pointer-to-scalar, struct/array/union xobjects} with scalar or void return are compiled by the real add_kernels path; calls pass type extremes (python and numpy scalar forms), ndarrays, slices, strided and 2-D arrays, xobject arrays (also nested / behind references) and objects at any offset after relocation; the kernel records what it saw; non-const pointers are written through and must be visible from Python; positional / missing / extra arguments and arrays of the wrong element type must raise and change nothing.", "Trusted: the probe source generated by sim/cprobes.py; cffi. Serial and OpenMP CPU contexts only.", "DESIGN.md §3.3, §4 C17"),
+    "C14": ("depsim", "deterministic simulation: histories of sort_classes / add_kernels builds over generated dependency graphs with the class-set iteration order (address-hash order in the library) owned by the seeded scheduler", "Generated graphs over structs (with and without fields), arrays, references, unions, declared _depends_on edges (including cycle-closing ones) and HybridClass declarations; per run 1-6 builds with seeded root subsets/orders (roots named twice included) and a seeded permutation injected at the classes_from_kernels seam; every build is compiled by the real cffi/gcc path; the listed/emitted classes are compared with the harness's own closure: each reachable API exactly once, after its dependencies, nothing else, cycles raise. Weak fit: simulation contributes control of an otherwise address-dependent order (replayability); the graph dimension is seeded generation.", "Trusted: the dependency relation as computed by sim/depsim.py from the schema; guard-block scan of the emitted source.", "DESIGN.md §4 C14"),
+    "C18": ("hybridsim", "deterministic simulation: histories of {construct, set field, nested assignment, reference bind, copy, move, raw writes through _xobject, growth/relocation, pickle restart} on generated hybrid classes; attribute == buffer data == model and nested dressed parts in sync after every step", "Generated HybridClass definitions over scalars, strings, scalar arrays of any shape/order, nested hybrid classes (chains), references to hybrid classes, renamed fields and defaults; after every step every live dressed object is read recursively through its Python attributes and compared with its _xobject and with the reference model, and every nested dressed part must sit where the parent's buffer data places it; copy-assignment independence, reference sharing, cross-buffer refusal (with unchanged state), copy equality/independence, move relocation and refusals are post-conditions of the corresponding steps.", "Trusted: sim/model.py; pure-Python attributes are not modelled; reference-bearing nested assignment and moves of reference targets are not generated.", "DESIGN.md §3.5, §4 C18"),
+    "C19": ("hybridsim", "deterministic simulation: from_dict(to_dict(h)) and T(x._to_json()) issued at arbitrary points of hybrid / object histories, rebuilt object compared with the model, default elision checked against declared defaults", "to_dict/from_dict round trips on generated hybrid classes (renames, defaults, default factories, nested hybrids, references, N-D and empty arrays, strings) at seeded points of histories with values deliberately equal to and different from defaults; keys equal to the declared (or implicit zero) default must be absent and the rebuilt object must equal the original field by field (a field omitted as equal to its default may come back as +0.0 for -0.0). JSON rebuild of reference-free structs and 1-D arrays through the ObjSim json profile. Weak fit: the rebuild is a function of the object; histories only sample states constructors alone do not reach.", "Trusted: sim/model.py; value (not bit-pattern) equality for fields omitted as default.", "DESIGN.md §3.5, §4 C19"),
 }
 
 NOT_YET = "check not built yet in this revision (engine under construction, see DESIGN.md build order); will be claimed or given its final not-applicable reason when the engine lands"
